@@ -189,7 +189,7 @@ def run(ctx, replay=None):
         rule="configurations (sequences of legal and illegal filter/flag calls) are enumerated (BFS, <=1 filter call x flag words) and simulated (<=4 filter calls) by TLC "
              "from MC_Load.tla; each source (27 synthetic families, bundled XML files, Linux snapshots, x86 CPUID dumps, the live machine) is loaded for real under the three presets "
              "plus seeded picks of those configurations plus, for every type the source really contains, the two-call configurations of the model that remove it "
-             "(alone, and with every other type kept) or keep it only when structuring; synthetic families are also loaded from their own XML exports (v3 and v2 formats); every successful load is judged by WellFormed (Topology.tla). A behaviour is non-trivial when load was attempted.",
+             "(alone, and with every other type kept) or keep it only when structuring; synthetic families are also loaded from their own XML exports (v3 and v2 formats), and under the model's binding configurations (the process binds itself to one of seven CPU lists before a load that claims IS_THISSYSTEM and asks for RESTRICT_TO_CPUBINDING / _MEMBINDING: nothing outside the binding may be left); every successful load is judged by WellFormed (Topology.tla). A behaviour is non-trivial when load was attempted.",
         assumptions=["sources that need hardware (CUDA, NVML, Windows ...) are not built here",
                      "RESTRICT_TO_*BINDING flags are not driven on the live machine",
                      "the configuration x source product is sampled per source (seeded), not exhausted, in the quick tier"],
